@@ -11,13 +11,13 @@ EXTENDS CronNext, TLC
 CONSTANT Size         \* "small" | "big"
 
 Big == Size = "big"
-Window == IF Big THEN 20000 ELSE 6000         \* seconds searched after t
-LongWindow == IF Big THEN 130000 ELSE 15000
+Window == IF Big THEN 12000 ELSE 6000         \* seconds searched after t
+LongWindow == IF Big THEN 100000 ELSE 15000
 Deltas == {-3700, -1801, -1, 0, 1799, 3600}
-          \cup (IF Big THEN {-86400, -80000, -10800, -7000, -5400, -3599, -1800, -61, 1, 59, 60, 900, 1800, 2700, 3599, 5400, 7200, 10000} ELSE {})
+          \cup (IF Big THEN {-86400, -80000, -7000, -3599, -61, 1, 60, 1800, 3599, 5400} ELSE {})
 Secs == {{0}, {7, 30}} \cup (IF Big THEN {0..59} ELSE {})
-Mins == {{0}, {15}, {20, 50}} \cup (IF Big THEN {0..59, {29, 30, 31}} ELSE {})
-Hours == {{2}, {1, 3}, 0..23} \cup (IF Big THEN {{0}, {23}, {0, 12}} ELSE {})
+Mins == {{0}, {15}, {20, 50}} \cup (IF Big THEN {{29, 30, 31}} ELSE {})
+Hours == {{2}, {1, 3}, 0..23} \cup (IF Big THEN {{0}, {23}} ELSE {})
 (* <<day-of-month set, day-of-week set, rule>>; 2024-03-10 is a Sunday *)
 Days == {<<1..31, 0..6, "and">>, <<{10}, 0..6, "and">>, <<{11}, {0}, "or">>, <<1..31, {1}, "and">>}
         \cup (IF Big THEN {<<{9, 11}, {3}, "or">>, <<{31}, 0..6, "and">>, <<{10}, {1}, "and">>} ELSE {})
